@@ -1,5 +1,5 @@
 (* Properties/C03.v — pinned statements for C03 (reply invoked exactly when, and with exactly what, the sub-message dictates). *)
-From Verif Require Import Base OMap Text Proto Bank Exec ExecFacts ExecFacts2 ChkExec.
+From Verif Require Import Base OMap Text Proto Bank Exec ExecFacts ExecFacts2 ChkExec ChkX ExecOracle ExecOracleS ExecOracleH.
 
 (* log of one sub-message = its own log, followed by the log of the reply entry point EXACTLY when
    (it succeeded and the mode is Success/Always) or (it failed and the mode is Error/Always); nothing is
@@ -62,3 +62,27 @@ Example reply_trace_example :
   | _ => False
   end.
 Proof. vm_compute. reflexivity. Qed.
+
+(* ---------- what the correspondence check relies on ---------- *)
+(* The run-time oracle p_c03 (ChkX.v, clauses 5-6: the programs called are a duplicate-free subsequence of the pre-order of the tree; every reply
+   entry has the id, payload, result kind, mode, contract and dispatcher the tree prescribes) accepts the model's own run of EVERY well-formed scenario, in every case
+   environment: an implementation that behaves exactly like the model is never flagged, and "agrees with the model"
+   implies "satisfies the oracle's reading of C03".
+   Premise [wf_scenario] (ExecOracle.v) is what the generator guarantees (harness/exec_common/src/gen.rs): in every
+   program of every call — sub-messages and reply handlers at every depth — the first action writes the marker
+   "m<node>" and no other action writes or removes the marker of any node; the markers of all the nodes of the
+   scenario are pairwise different.  [model_steps] builds the step records from the model's own run (only the block and
+   the call of each input step are used). *)
+Theorem C03_model_ok ce steps : wf_scenario steps -> c03 ce (model_steps ce steps empty_chain) = Agree.
+Proof. exact (c03_model_ok ce steps). Qed.
+Print Assumptions C03_model_ok.
+
+Example C03_model_ok_applies : wf_scenario ex_scenario /\ c03 ex_ce (model_steps ex_ce ex_scenario empty_chain) = Agree.
+Proof. exact (conj ex_scenario_wf (C03_model_ok ex_ce ex_scenario ex_scenario_wf)). Qed.
+
+(* conversely, an Agree verdict of the check means: the oracle accepted every step of what the IMPLEMENTATION did, and
+   trace, outcome and state agreed with the model at every step *)
+Theorem C03_agree_sound ce steps : c03 ce steps = Agree ->
+  oracle_steps p_c03 steps 0 = None /\ corr ce steps empty_chain 0 = None.
+Proof. exact (check_with_agree_sound p_c03 ce steps). Qed.
+Print Assumptions C03_agree_sound.
